@@ -329,6 +329,10 @@ def run_property(pid, units, validate_ops, selftests, bounds, assumptions, uncov
         has_struct = any(q['name'].startswith('result == canonical') for q in qs)
         if r.get('status') == 'pass' and has_struct and all(q['result'] == q.get('expect', 'unsat') for q in qs):
             proved.add(r.get('method'))
+        if r.get('eqfail'):
+            # derived PartialEq / Hash of BDD disagree with the denoted function: a C02 violation without a driver replay
+            # (the driver cannot observe more than the same two diagrams compared by the same impl)
+            rep.inconclusive.append('%s: obligation "%s" fails (sat)' % (name, r['eqfail']))
         for callee, n in (r.get('summaries_used') or {}).items():
             if not (callee == r.get('method') and r.get('inductive')):
                 used.setdefault(callee, []).append(name)
@@ -343,6 +347,9 @@ def run_property(pid, units, validate_ops, selftests, bounds, assumptions, uncov
         if r.get('cex'):
             if r['cex']['case'].get('kind') == 'pair':
                 replay_pair(rep, pid, name, r['cex'])
+            elif r['cex']['case'].get('kind') == 'formula':
+                import evalcore
+                evalcore.replay_formula(rep, pid, name, r['cex'])
             else:
                 replay_cex(rep, pid, name, r['cex'])
     return rep
